@@ -82,6 +82,32 @@ def run_jobs(script, jobs, workdir, key="jobs", outkey="traces", nproc=None, tim
     return out
 
 
+def run_jobs_flat(script, jobs, workdir, key="jobs", outkey="traces", nproc=None, timeout=900, env=None):
+    """Like run_jobs, but a job may produce any number of outputs; outputs are concatenated in job order."""
+    nproc = nproc or NPROC
+    if not jobs:
+        return []
+    n = max(1, min(nproc, len(jobs)))
+    chunks = [jobs[i::n] for i in range(n)]
+
+    def one(ch):
+        res = []
+        for j in ch:     # one worker invocation per job keeps the outputs attributable
+            res.append(run_worker(script, {key: [j]}, workdir, timeout=timeout, env=env)[outkey])
+        return res
+
+    with ThreadPoolExecutor(max_workers=n) as ex:
+        res = list(ex.map(one, chunks))
+    out = [None] * len(jobs)
+    for ci, ch in enumerate(res):
+        for j, item in enumerate(ch):
+            out[ci + j * n] = item
+    flat = []
+    for item in out:
+        flat.extend(item)
+    return flat
+
+
 class Scratch:
     """Per-run scratch directory outside /repo and /verif, removed on exit."""
 
